@@ -1,0 +1,16 @@
+//go:build verif
+
+package blobstream
+
+// Contracts for the deductive verifier in /verif (govc). Comments only; build tag "verif".
+
+// C19: contract on the declaration of the module's RPC API. Every method carries one of the four
+// permission levels and is at least as restricted as the policy below, which is written from the
+// property text (read-only queries). The table is closed: a method without a policy entry is an undischarged
+// obligation.
+//@ permtable API
+//@   property C19
+//@   closed
+//@   require GetDataRootTupleRoot public
+//@   require GetDataRootTupleInclusionProof public
+//@ end
